@@ -64,12 +64,16 @@ func contractsFor(specs *Specs, prop string) []*Contract {
 			continue
 		}
 		if c.Trusted {
-			// only the structural clauses of a trusted contract are checkable (against the body's call instructions)
+			// only the structural clauses of a trusted contract are checkable (against the body's call instructions);
+			// in a swept file the body's safety obligations are generated as for a contract-less function
+			sel := hasProp(c.SweepProps, prop)
 			for _, nc := range append(append([]*Clause{}, c.NoCalls...), c.CtxFlow...) {
 				if hasProp(nc.Props, prop) {
-					out = append(out, c)
-					break
+					sel = true
 				}
+			}
+			if sel {
+				out = append(out, c)
 			}
 			continue
 		}
@@ -186,7 +190,13 @@ func runCheck(cfg checkCfg) int {
 			continue
 		}
 		var vc *FuncVC
-		if ct.Trusted {
+		if ct.Trusted && hasProp(ct.SweepProps, cfg.prop) {
+			thin := &Contract{Key: ct.Key, Pkg: ct.Pkg, Loops: map[int]*LoopSpec{}, Where: ct.Where, Thin: true, SweepProps: ct.SweepProps, NoCalls: ct.NoCalls, CtxFlow: ct.CtxFlow}
+			vc = genFunction(ld, specs, fn, thin, GenOpts{Safety: true, Prop: cfg.prop})
+			vc.Contract = thin
+			runs = append(runs, &funcRun{vc: vc, ct: thin})
+			continue
+		} else if ct.Trusted {
 			vc = genStructural(ld, specs, fn, ct)
 		} else {
 			vc = genFunction(ld, specs, fn, ct, GenOpts{Safety: true, Prop: cfg.prop})
